@@ -115,8 +115,9 @@ func compareAudit(r *AuditRec, lin *Lin, ex *Expect, insts map[string]*simrt.OpI
 		}
 		words := strings.Fields(r.Command)
 		// (the command may be one stage of a pipeline: "false | op ...")
-		if !strings.HasSuffix(strings.Join(words, " "), strings.Join(o.Argv, " ")) {
-			return "audit-command", fmt.Sprintf("%s: Command %q differs from the executed argv %v", where, r.Command, o.Argv)
+		executed := append(append([]string(nil), o.Launcher...), o.Argv...)
+		if !strings.HasSuffix(strings.Join(words, " "), strings.Join(executed, " ")) {
+			return "audit-command", fmt.Sprintf("%s: Command %q differs from the executed words %v", where, r.Command, executed)
 		}
 	}
 	if r.FinishTime.Before(r.StartTime) {
@@ -209,6 +210,12 @@ func init() {
 				return globDepCase(c)
 			}
 			w := Generate(c.Tape, tierProfile(profC10, c.Tier))
+			for i := range w.Nodes {
+				// launcher prefix (Process.Prepend): part of the command that is executed
+				if n := &w.Nodes[i]; n.Kind == KProc && n.Custom == 0 && c.Tape.Choose(simrt.StGen, 5, 0) == 1 {
+					n.Prepend = []string{"nice -n 10", "env", "nohup"}[c.Tape.Choose(simrt.StGen, 3, 0)]
+				}
+			}
 			c.Sample = sample(w)
 			ex := Eval(w)
 			inc := RunInc(w, c.Tape, nil, 0, IncOpts{KillAt: -1, Strategy: strategyOf(c.Tape), Trace: c.Trace})
@@ -262,13 +269,21 @@ func auditFilesOf(root *simrt.Inode, ex *Expect) map[string]map[string]any {
 // ancestorsIdentical: inside every record of the final tree, a nested record
 // for a file whose audit file was on disk before the resuming incarnation
 // must be identical to that audit file (ids and time stamps included).
-func ancestorsIdentical(final *simrt.Inode, before map[string]map[string]any, ex *Expect) (string, string) {
+// existed (optional): data files that were on disk when the resuming run
+// started; they are not "newly produced" and are skipped at the top level
+// (needed for histories in which an ancestor was re-produced in an earlier
+// round while a descendant was kept: the kept file rightly holds the record
+// of the ancestor it really consumed).
+func ancestorsIdentical(final *simrt.Inode, before map[string]map[string]any, ex *Expect, existed map[string]bool) (string, string) {
 	var paths []string
 	for p := range ex.Files {
 		paths = append(paths, p)
 	}
 	sort.Strings(paths)
 	for _, p := range paths {
+		if existed[p] {
+			continue
+		}
 		n := simrt.Find(final, p+".audit.json")
 		if n == nil {
 			continue
@@ -294,6 +309,9 @@ func ancestorsIdentical(final *simrt.Inode, before map[string]map[string]any, ex
 						cb, _ := json.Marshal(child)
 						return "ancestor-record-changed", fmt.Sprintf("%s > Upstream[%s] differs from the audit file of %s that was on disk before the resume (first difference at %s):\n  on disk: %s\n  in new record: %s", where, k, k, firstDiff(old, child, ""), clip2(ob), clip2(cb))
 					}
+					// identical to the file on disk: whatever lies below is that file's own
+					// business (it is checked as a path of its own when newly produced)
+					continue
 				}
 				if c, d := walk(child, where+" > Upstream["+k+"]"); c != "" {
 					return c, d
@@ -399,7 +417,7 @@ func init() {
 	Register(&Check{ID: "C11", Level: "fault_enumeration",
 		Rule: "one case = one generated workflow and one of three ways, tape-chosen, of splitting its execution over several incarnations on one persistent fs: (a) RunTo(tape-chosen prefix targets) then Run; (b) for the sampled schedule EVERY distinct crash state: kill there, cleanup, re-run (states in which the re-run does not complete are C03's business and skipped here); (c) complete run, delete a tape-chosen set of outputs with their audit files, re-run. Oracle after each history: every output's audit file equals the reference lineage (= the uninterrupted result: process, command, parameters, tags, output paths of every ancestor, recursively), and every nested ancestor record whose audit file was on disk before the resuming incarnation is identical (ids, time stamps and all) to that file - which exercises scipipe's own write -> read -> embed -> write path. distinct = event-log hash of the history; non-trivial = >=2 tasks, >=1 non-default choice",
 		Run: func(c *Case) Verdict {
-			mode := c.Tape.Choose(simrt.StGen, 3, 0)
+			mode := c.Tape.Choose(simrt.StGen, 4, 0)
 			prof := profC11
 			if mode == 1 {
 				// crash histories also with tagging components: they re-write the audit
@@ -408,11 +426,12 @@ func init() {
 			}
 			w := Generate(c.Tape, crashTierProfile(prof, c.Tier))
 			ex := Eval(w)
+			var existed map[string]bool
 			check := func(final *simrt.Inode, before map[string]map[string]any, incs ...*Inc) Verdict {
 				if v := auditOracle(final, ex, instsByKey(incs...)); v.Status != "ok" {
 					return v
 				}
-				if cl, d := ancestorsIdentical(final, before, ex); cl != "" {
+				if cl, d := ancestorsIdentical(final, before, ex, existed); cl != "" {
 					return Viol(cl, "", "%s", d)
 				}
 				return OK()
@@ -483,6 +502,42 @@ func init() {
 					}
 				}
 				return OK()
+			case 3: // several rounds of "delete some results, run again" inside ONE process
+				rounds := 1 + c.Tape.Choose(simrt.StGen, 4, 0)
+				for r := 0; r < rounds; r++ {
+					var del []string
+					for _, t := range ex.Tasks {
+						if len(t.Outs) == 0 || c.Tape.Choose(simrt.StGen, 2, 0) != 1 {
+							continue
+						}
+						for _, p := range t.Outs {
+							del = append(del, Abs(p))
+						}
+					}
+					w.Rounds = append(w.Rounds, del)
+				}
+				c.Sample = fmt.Sprintf("%d further rounds (delete results, run again) in one process: %s", rounds, sample(w))
+				c.Fault("in-process-rerun")
+				inc := RunInc(w, c.Tape, nil, 0, IncOpts{KillAt: -1, Strategy: strategyOf(c.Tape), Trace: c.Trace})
+				c.Absorb(inc)
+				if v, ok := inconclusiveEnd(inc); ok {
+					return v
+				}
+				if !completedOK(inc) {
+					return Skipped(Viol("resume-no-completion", "end="+inc.Sim.End.String(), "re-running in one process does not complete: %s", endDesc(inc)))
+				}
+				if cl, d := checkFinalFiles(inc.Sim.FS.Root, ex, false); cl != "" {
+					return Skipped(Viol(cl, "", "after %d in-process rounds: %s", rounds, d))
+				}
+				last := inc.RT.PreRound[len(inc.RT.PreRound)-1]
+				before := auditFilesOf(last, ex)
+				existed = map[string]bool{}
+				for p := range ex.Files {
+					if n := simrt.Find(last, p); n != nil {
+						existed[p] = true
+					}
+				}
+				return check(inc.Sim.FS.Root, before, inc)
 			default: // delete downstream outputs, re-run
 				c.Sample = "complete run, delete outputs, re-run: " + sample(w)
 				inc := RunInc(w, c.Tape, nil, 0, IncOpts{KillAt: -1, Strategy: strategyOf(c.Tape), Trace: c.Trace})
